@@ -216,10 +216,12 @@ func (sc fScenario) body(ff fFaults) explore.Body {
 		vsched.BeginQuiet()
 		fw := sc.setup()
 		vsched.EndQuiet()
+		usedDRK := map[string]bool{}
 		for round := 0; round < 2; round++ {
 			// round 0: with fault choices; round 1: faults stopped, the next operation must succeed
 			fw.setFaults(round == 0, ff)
 			kmsFrom, aeadFrom, srcFrom, secFrom := len(fw.w.KMS.Returned), len(fw.w.AEAD.Returned), len(fw.w.TF.NewSources), len(fw.w.TF.Secrets)
+			aeadCallsFrom := len(fw.w.AEAD.Calls)
 			what := fmt.Sprintf("%s/%s round %d", sc.name, sc.op, round)
 			var rec *ae.DataRowRecord
 			var out []byte
@@ -254,6 +256,10 @@ func (sc fScenario) body(ff fFaults) explore.Body {
 				}
 			} else if round == 1 {
 				c.Failf("C02:no-recovery", "%s: with all faults stopped the next operation still fails: %v (calls: %s)", what, err, fw.callTrail())
+			}
+			// C03: the envelope discipline holds on every path that hands out a record, also after faults
+			if err == nil && sc.op == "enc" {
+				fw.envelope(c, what, aeadCallsFrom, secFrom, usedDRK)
 			}
 			// C10: transient plaintext copies
 			fw.wiped(c, what, kmsFrom, aeadFrom, srcFrom, fw.pay)
@@ -389,4 +395,39 @@ func leakClass(ms *doubles.SpyMetastore) string {
 		}
 	}
 	return ""
+}
+
+// envelope is the C03 monitor for one successful encrypt of the fault space: the payload was encrypted exactly once,
+// under a key that the secret factory generated with CreateRandom during this very call (never a key that bypassed the
+// secret factory, never zero bytes, never the key of an earlier write), and that key is released on return.
+func (fw *fWorld) envelope(c *explore.Ctx, what string, aeadFrom, secFrom int, used map[string]bool) {
+	n := 0
+	for _, cl := range fw.w.AEAD.Calls[aeadFrom:] {
+		if cl.Op != "Encrypt" || cl.Err || !bytes.Equal(cl.Data, fw.pay) {
+			continue
+		}
+		n++
+		if cl.KeyZero {
+			c.Failf("C03:payload-under-zero-key", "%s encrypted the payload under an all-zero key (calls: %s)", what, fw.callTrail())
+		}
+		fresh := false
+		for _, s := range fw.w.TF.Secrets[secFrom:] {
+			if s.KeyID == cl.KeyID && cl.KeyID != 0 && s.Kind == "random" {
+				fresh = true
+				if !s.Closed {
+					c.Failf("C03:drk-not-released", "%s returned while its data key is still live", what)
+				}
+			}
+		}
+		if !fresh {
+			c.Failf("C03:drk-not-from-secret-factory", "%s encrypted the payload under a key that the secret factory did not generate during this call (key id %d; calls: %s)", what, cl.KeyID, fw.callTrail())
+		}
+		if used[cl.KeyHash] {
+			c.Failf("C03:drk-reused", "%s encrypted the payload under the data key of an earlier write", what)
+		}
+		used[cl.KeyHash] = true
+	}
+	if n != 1 {
+		c.Failf("C03:payload-encryptions", "%s performed %d payload encryptions, want exactly 1", what, n)
+	}
 }
